@@ -152,6 +152,8 @@ def run(ck):
     shared.no_live_view_in_mutating_loop(ck, ['vermouth/map_parser.py'])
     shared.truthy_zero(ck, ['vermouth/processors/average_beads.py', 'vermouth/processors/do_mapping.py', 'vermouth/map_parser.py', 'vermouth/map_input.py'])
     shared.no_new_state(ck, ['vermouth/map_parser.py', 'vermouth/map_input.py'])
+    # "constituents without coordinates never contribute": an atom the repair step adds has none, and is not handed any on the way (F27)
+    shared.rebuilt_atom_no_coordinates(ck, 'PROV-no-coordinates')
     # the weight table stored on the particle is the table itself (null weights included), not a filtered copy
     shared.runs_every_molecule(ck, 'vermouth/processors/average_beads.py', 'DoAverageBead', 'MPT-every-molecule')
     ck.assume('the arithmetic of numpy.average and rigid-motion equivariance are not decided')
